@@ -12,7 +12,9 @@ RandomW.tla and the trace modules TracePCGrad / TraceGradDrop / TraceFrankWolfe.
      equals "kept-sign entries + leaked share of the others" per column.
    * FrankWolfe (MGDA): exact iterates; alpha on the simplex, |J^T alpha|^2 monotone and never above the
      mean's, exact line search, two rows: closed form after one step; scale-free.
-   * CAGradSym: exact mean, Pareto-stationarity (active-set enumeration), symmetric instances, conditioning.
+   * CAGradSym: exact mean, Pareto-stationarity (active-set enumeration), symmetric instances, conditioning; the same
+     facts on the BADLY SCALED family J = D_r J0 D_c (rows / columns scaled by 2^-P, exponents carried symbolically
+     by EpsScale.tla, valid for every P >= needP; refinement of the integer analysis on unscaled instances).
 2. SPEC -> CODE: every exported scenario is executed on the real aggregators – PCGrad with torch.randperm
    FORCED to the scripted permutations, GradDrop with torch.rand FORCED to realise every sign choice,
    MGDA(epsilon, max_iters=K) on 2^e J against the exact K-step iterate (argmin ties = candidate set), all
@@ -37,6 +39,7 @@ from fractions import Fraction
 import torch
 
 from .. import agg_c18_cagrad as CA
+from .. import badscale as BS
 from .. import agg_c18_graddrop as GD
 from .. import agg_c18_mgda as MG
 from .. import agg_c18_pcgrad as PC
@@ -74,7 +77,7 @@ def _strip(ep: dict, keys: tuple) -> dict:
 # ------------------------------------------------------------------------------------------------
 # model-check jobs
 
-def mc_jobs(ctx: Ctx, m4_file: str, fw_file: str) -> list[dict]:
+def mc_jobs(ctx: Ctx, m4_file: str, fw_file: str, bs_file: str | None = None) -> list[dict]:
     quick = ctx.tier == "quick"
     jobs = []
     pc_base = (SPEC_DIR / "MC_PCGrad_quick.cfg").read_text()
@@ -116,6 +119,14 @@ def mc_jobs(ctx: Ctx, m4_file: str, fw_file: str) -> list[dict]:
     ca_base = (SPEC_DIR / "MC_CAGradSym_quick.cfg").read_text()
     jobs.append({"name": "cagradsym", "module": "CAGradSym", "part": "cagrad",
                  "cfg": ca_base if quick else ca_base.replace("{122, 222, 321}", "{122, 222, 321, 223, 231}")})
+    if bs_file is not None:
+        # the badly scaled family (EpsScale.tla): rows / columns scaled by 2^-P, exponents carried symbolically
+        bs = (SPEC_DIR / "MC_CAGradSym_bs_quick.cfg").read_text()
+        if "CONSTANT BSPick = 0" not in bs or "BSShapesQuick" not in bs:
+            raise MachineryError("MC_CAGradSym_bs_quick.cfg: BSPick / BSShapes lines not found")
+        bs = bs.replace("CONSTANT BSPick = 0", f"CONSTANT BSPick = {ctx.seed}")
+        jobs.append({"name": "cagradsym_badly_scaled", "module": "CAGradSym", "part": "cagrad", "tag": "BSCN",
+                     "cfg": bs if quick else bs.replace("BSShapesQuick", "BSShapesThorough"), "env": {"BS_FILE": bs_file}})
     return jobs
 
 
@@ -435,6 +446,55 @@ def cagrad_check(ctx: Ctx, infos: list[dict]) -> None:
     ctx.sample({"cagrad_instance": {k: infos[len(infos) // 2][k] for k in ("J", "mean", "d2", "stationary", "symmetric")}})
 
 
+def cagrad_bs_check(ctx: Ctx, scns: list[dict], listed: list[dict]) -> None:
+    """The distance clause on the BADLY SCALED family: every exported instance at eps = 2^-P (badscale.pick_P), quick:
+    two of the four c values per instance (rotating), thorough: all four; scale exponents rotating."""
+    ikey = lambda s: (json.dumps(s["J0"]), tuple(s["rho"]), tuple(s["gam"]))      # noqa: E731
+    scns = sorted({ikey(s): s for s in scns}.values(), key=lambda s: (s["m"], s["n"], s["J0"], s["rho"], s["gam"]))
+    fkeys = {ikey(i) for i in listed}
+    want = BS.expected_scaled_instances(BS.SHAPES[PID][ctx.tier], ctx.seed)
+    n_enum = sum(1 for s in scns if ikey(s) not in fkeys)
+    if not (want - len(listed) <= n_enum <= want) or not fkeys <= {ikey(s) for s in scns}:
+        raise MachineryError(f"CAGradSym badly scaled family: {len(scns)} distinct scenarios ({n_enum} not in the file), "
+                             f"expected {want} enumerated + {len(listed)} listed")
+    items = []
+    for i, s in enumerate(scns):
+        if not s["tr"]:
+            continue
+        cs = sorted(s["cs"], key=lambda p: Fraction(*p))
+        k = i + ctx.seed
+        if ctx.tier == "quick":
+            cs = [cs[k % 4], cs[(k + 1 + (k // 4) % 3) % 4]]
+        for P in BS.pick_P(s, k):
+            items.append((s, cs, P, CAGRAD_EXPS[k % len(CAGRAD_EXPS)]))
+    res = pmap(CA.check_bs_instance, items, chunksize=8)
+    raised, judged, margin, ill = 0, 0, 0.0, 0
+    for (s, cs, P, e), r in zip(items, res):
+        ctx.evaluations += r["runs"]
+        ctx.count("cagrad_bs_zero_vector_at_stationary_instance", r["zero_at_stationary"])
+        ctx.count("cagrad_bs_skipped_near_stationary", r["ambiguous"])
+        raised += len(r.get("raised", []))
+        margin = max(margin, r.get("margin", 0.0))
+        if r["runs"] and not s["stationary"]:
+            judged += 1
+            ill += 1 if P >= 7 else 0
+            if not s["symmetric"]:
+                ctx.nontrivial(("cagrad_bs", jkey(s["J0"]), tuple(s["rho"]), tuple(s["gam"]), P))
+        for f in r["fails"]:
+            ctx.violation(f"cagrad_bs:{f['kind']}:c={f['c']}:{BS.key(s, P, e)}", f["what"],
+                          {"part": "cagrad_bs", "scn": s, "c": f["c"], "P": P, "exp": e})
+    ctx.count("cagrad_bs_solver_raised", raised)
+    ctx.count("cagrad_bs_instances", len(scns))
+    ctx.count("cagrad_bs_runs_judged_non_stationary", judged)
+    ctx.count("cagrad_bs_runs_judged_beyond_100x", ill)
+    ctx.extra["cagrad_bs_worst_radius_error_over_allowance"] = round(margin, 6)
+    if ill < 100:
+        raise MachineryError(f"vacuous coverage of the badly scaled family: {judged} non-stationary runs judged, {ill} with P >= 7")
+    s = scns[len(scns) // 2]
+    ctx.sample({"cagrad_badly_scaled_instance": {k: s[k] for k in ("J0", "rho", "gam", "colsums", "total", "d2num", "d2den", "tr",
+                                                                    "stationary", "symmetric", "needP")}})
+
+
 def random_check(ctx: Ctx, eps: list[dict], ran=None) -> None:
     res, summ, _ = ran or trace_job("random", eps)
     ctx.add_tlc(res)
@@ -505,6 +565,10 @@ def do_replay(ctx: Ctx, rec: dict) -> None:
         vals = [x / 2.0 ** e["exp"] for x in out.tolist()]
         q = rat_vec(vals)
         mgda_trace(ctx, [dict(e, ep=1, out=to_json(q) if q else [], float_out=vals)])
+    elif part == "cagrad_bs":
+        r = CA.check_bs_instance((p["scn"], [p["c"]], p["P"], p.get("exp", 0)))
+        for f in r["fails"]:
+            ctx.violation(rec["key"], f["what"], p)
     elif part == "cagrad":
         r = CA.check_instance((p["info"], [p["c"]], p.get("exp", 0)))
         for f in r["fails"]:
@@ -551,6 +615,9 @@ def run(ctx: Ctx, replay: str | None) -> None:
         "CAGrad and Random, MGDA with default parameters: predicate level (DESIGN 8); allowances derived in "
         "harness/agg_c18_cagrad.py and agg_c18_mgda.py",
         "CAGrad: the distance clause is judged on 2^e J, e in {-8, 0, 10}, where s >= 10 norm_eps is decided from exact integers; below norm_eps the code returns zeros by design (DESIGN 9): executed and counted only",
+        "CAGrad, badly scaled family: 2^e D_r J0 D_c with D = diag(2^-P ...), P in {5, 7, 8, 9, 12, 16} (singular values up to 4^P apart); "
+        "judged where the specification decides d2/tr >= 1e-6 (or exact stationarity); allowance 256 m eps / (d2/tr) derived in "
+        "agg_c18_cagrad.check_bs_instance",
         "MGDA exact iterates: K <= 2 on three/four rows, K = 3 on two rows (32-bit integers in TLC)",
     ]
     if replay:
@@ -571,29 +638,32 @@ def run(ctx: Ctx, replay: str | None) -> None:
     parts = set(os.environ.get("VERIF_C18_PARTS", "pcgrad,graddrop,mgda,cagrad,random").split(","))
     m4 = PC.sample_m4(ctx.seed, 3 if quick else 40)
     fw_sample = MG.sample_matrices(ctx.seed, 300 if quick else 3000)
+    bs_listed = BS.random_instances(random.Random(ctx.seed * 7919 + 18), 60 if quick else 400)
     with tempfile.TemporaryDirectory(prefix="verif_c18_") as d:
-        m4_file, fw_file = os.path.join(d, "m4.json"), os.path.join(d, "fw.json")
+        m4_file, fw_file, bs_file = os.path.join(d, "m4.json"), os.path.join(d, "fw.json"), os.path.join(d, "bs.json")
         with open(m4_file, "w") as f:
             json.dump(m4, f)
         with open(fw_file, "w") as f:
             json.dump(fw_sample, f)
-        jobs = [j for j in mc_jobs(ctx, m4_file, fw_file)
+        with open(bs_file, "w") as f:
+            json.dump(bs_listed, f)
+        jobs = [j for j in mc_jobs(ctx, m4_file, fw_file, bs_file)
                 if j["part"] in parts or (j["part"] == "cagrad" and "random" in parts)]
         with ThreadPoolExecutor(PARALLEL_TLC) as ex:
             results = list(ex.map(run_job, jobs))
     lap("model_checking")
     for job, res in zip(jobs, results):
         phases["tlc_" + job["name"]] = round(res.wall_s, 2)
-    scns: dict[str, list] = {"pcgrad": [], "graddrop": [], "mgda": [], "cagrad": []}
+    scns: dict[str, list] = {"pcgrad": [], "graddrop": [], "mgda": [], "cagrad": [], "cagrad_bs": []}
     for job, res in zip(jobs, results):
         ctx.add_tlc(res)
         if res.violated:
             raise MachineryError(f"{job['module']} ({job['name']}): the model violates {res.violated}\n{res.cex[:2000]}")
-        got = res.prints.get("SCN", [])
+        got = res.prints.get(job.get("tag", "SCN"), [])
         if not got:
             raise MachineryError(f"{job['name']}: no scenario exported")
         ctx.extra.setdefault("scenarios_exported", {})[job["name"]] = len(got)
-        scns[job["part"]] += got
+        scns["cagrad_bs" if job.get("tag") == "BSCN" else job["part"]] += got
 
     # vacuity: the exported families must exercise every branch the clauses talk about
     vac = {}
@@ -634,6 +704,8 @@ def run(ctx: Ctx, replay: str | None) -> None:
     if "cagrad" in parts:
         cagrad_check(ctx, scns["cagrad"])
         lap("cagrad_check")
+        cagrad_bs_check(ctx, scns["cagrad_bs"], bs_listed)
+        lap("cagrad_bs_check")
 
     # code -> spec
     eps: dict[str, list] = {}
@@ -668,5 +740,6 @@ def run(ctx: Ctx, replay: str | None) -> None:
                 "groups counted as skipped (denominator > 10^4, mixed depth)",
         "graddrop": "model-checked completely; a content-hash sample of the scenarios (1/4 quick, 1/3 thorough) replayed, "
                     "each with two forced draws",
-        "cagrad/random": "predicate level on the enumerated instances" + (" (every other instance, one c each)" if quick else ""),
+        "cagrad/random": "predicate level on the enumerated instances" + (" (every other instance, one c each)" if quick else "")
+                         + "; badly scaled family: every exported instance" + (", two c each" if quick else ", all c"),
     }
